@@ -586,13 +586,22 @@ def run_scope(sh, lab, deco, scopes, exit_kind):
             cm, no, ne = io.output.increment_indent(n), ind_out + n, ind_err
         raised = None
         ok = True
+        inner_raised = []
         try:
             with cm:
                 if k < len(scopes) - 1 or exit_kind in ("normal",):
                     pass
-                ok = enter(k + 1, no, ne)
+                try:
+                    ok = enter(k + 1, no, ne)
+                except (Boom, KeyboardInterrupt):
+                    inner_raised.append(True)
+                    raise
         except (Boom, KeyboardInterrupt) as e:
             raised = e
+        if inner_raised and raised is None:
+            # a scope is left by an exception: the exception goes on, the scope only restores the indentation
+            sh.violate("exception-swallowed", case, "the exception that left scope %d (%s) did not come out of the with block" % (k, kind))
+            return False
         # after leaving scope k the previous indentation holds again
         if ok and not probe(sh, io, so, se, ind_out, ind_err, case, "after leaving scope %d (%s, exit %s)" % (k, kind, exit_kind)):
             ok = False
